@@ -256,6 +256,14 @@ class Session:
                         w = tp.WildCardType(inner, tp.Covariant)
                         r2 = u.classes[outer_k].new([w])
                         self.add(r2, ('i', outer_k, (('p', 'out', ('i', inner_k, (vterm,))),)))
+                    # a second variable whose *bound* mentions the first one, used as a type argument:
+                    # G<Zz: H<Z>> - a substitution of Z alone must reach into the bound of Zz
+                    if len(one) >= 1 and op[1] % 3 != 1:
+                        inner_k, outer_k = one[(op[1] // 3) % len(one)], one[op[1] % len(one)]
+                        dep = tp.TypeParameter('Zz%d' % (len(self.pool) % 3), tp.Invariant, u.classes[inner_k].new([v]))
+                        dep_t = ('v', dep.name, ('i', inner_k, (vterm,)))
+                        r3 = u.classes[outer_k].new([dep])
+                        self.add(r3, ('i', outer_k, (dep_t,)))
                     # and an instantiation mentioning it
                     if self.cons:
                         key, con = self.cons[op[1] % len(self.cons)]
